@@ -8,6 +8,15 @@ import (
 )
 
 func init() {
+	vk.Register("debug.sl", func(p vbase.Params, r *vbase.Result) {
+		c := RunStaleLeader(int(p.Seed)%4, Rulesets[int(p.Seed)%3], "eddsa", vbase.NewRng(p.Seed, "dbg"), r, func(m *Monitors) { m.Vote = true })
+		for _, v := range c.Mon.Viol {
+			fmt.Println("VIOL", v.Sig, v.Msg)
+		}
+		for _, t := range c.Trace {
+			fmt.Printf("%+v\n", t)
+		}
+	})
 	vk.Register("debug.sf", func(p vbase.Params, r *vbase.Result) {
 		c := RunSelectiveFetch(Rulesets[int(p.Seed)%2], "eddsa", vbase.NewRng(p.Seed, "dbg"), r, func(m *Monitors) { m.Commit = true })
 		for _, v := range c.Mon.Viol {
@@ -145,6 +154,24 @@ func simCampaign(prop string, enable func(*Monitors), clients bool) vk.Campaign 
 					if c := RunSelectiveFetch(rs, "eddsa", vbase.NewRng(p.Seed, "selective-fetch", rs), r, enable); c != nil {
 						finish(c, c.Cfg.String()+" "+c.Cfg.Label, -2000-k, "directed")
 						r.Obs("selective_fetch_"+rs+"_commits_r1", int64(len(c.Mon.commits[0])))
+					}
+				}
+			}
+			for k, rs := range Rulesets[:2] {
+				for variant := 0; variant < 6; variant++ {
+					if p.Mine(520 + 6*k + variant) {
+						if c := RunCatchupLostFetch(variant, rs, "eddsa", vbase.NewRng(p.Seed, "catchup-lost-fetch", rs, variant), r, enable); c != nil {
+							finish(c, c.Cfg.String()+" "+c.Cfg.Label, -2100-6*k-variant, "directed")
+						}
+					}
+				}
+			}
+			for k, rs := range Rulesets {
+				for variant := 0; variant < 4; variant++ {
+					if p.Mine(560 + 4*k + variant) {
+						if c := RunStaleLeader(variant, rs, "eddsa", vbase.NewRng(p.Seed, "stale-leader", rs, variant), r, enable); c != nil {
+							finish(c, c.Cfg.String()+" "+c.Cfg.Label, -2200-4*k-variant, "directed")
+						}
 					}
 				}
 			}
